@@ -95,6 +95,15 @@ def soup_cases(draw, tier):
         # start from a well-formed text and perturb it
         spec = draw(GX.text_specs(kind, max_states=3))
         lines = RT.render(kind, spec, draw(GX.layouts(kind, spec))).split("\n")
+        if draw(st.integers(0, 3)) == 0:
+            # a symbol with a special role (epsilon, blank) or a junk token is also listed in one of the declarations
+            decl = [i for i, l in enumerate(lines) if l.split() and l.split()[0] in ("input_symbols", "stack_symbols", "tape_symbols", "states", "final", "initial")]
+            if decl:
+                i = decl[draw(st.integers(0, len(decl) - 1))]
+                special = [spec.get("eps"), spec.get("blank"), "_", "ε", "□"]
+                tok = draw(st.sampled_from([x for x in special if x] + TOKENS[10:20]))
+                lines[i] = lines[i] + " " + tok
+                return {"kind": kind, "text": "\n".join(lines)}
         for _ in range(draw(st.integers(1, 3))):
             op = draw(st.integers(0, 3))
             i = draw(st.integers(0, max(0, len(lines) - 1)))
